@@ -11,7 +11,7 @@
    Both directions hold since proposed_fixes/C10-1..3 landed (flags cur_* = true). *)
 From Coq Require Import List ZArith String Bool NArith Permutation.
 From FIM Require Import Base.C10Types Gen.Constraints Model.Validate10 Model.C10Pinned Model.C10Spec
-  Proofs.Validate10Tables Proofs.Validate10Main Proofs.Validate10Extra.
+  Proofs.Validate10Tables Proofs.Validate10Main Proofs.Validate10Extra Proofs.Validate10Stable.
 Import ListNotations.
 
 (* ---- the tables ---- *)
@@ -104,6 +104,27 @@ Theorem C10_validate_idempotent : forall sl sts,
 Proof. exact validate_cur_idempotent. Qed.
 Print Assumptions C10_validate_idempotent.
 
+(* validate is a function of the CURRENT slice and its own side effect never changes its verdict: whatever the
+   outcome (also a rejection that had already written some sites), validating again the slice as validate left it
+   gives the same outcome and the same sites *)
+Theorem C10_validate_stable : forall sl sts res,
+  validate_cur sl = (sts, res) -> validate_cur (recorded sl sts) = (sts, res).
+Proof. exact validate_cur_stable. Qed.
+Print Assumptions C10_validate_stable.
+
+(* sessions on one topology (mutations interleaved with validations): the outcomes of the validations after any
+   prefix are those of a fresh session on the slice as it is at that moment -- nothing else is remembered *)
+Theorem C10_session_memoryless : forall pre post st,
+  (session st (pre ++ post) = session st pre ++ session (state_after st pre) post)%list.
+Proof. exact session_memoryless. Qed.
+Print Assumptions C10_session_memoryless.
+
+Theorem C10_session_revalidate : forall st,
+  session st [Validate; Validate] = [validate_cur st; validate_cur st] /\
+  state_after st [Validate; Validate] = state_after st [Validate].
+Proof. exact session_revalidate. Qed.
+Print Assumptions C10_session_revalidate.
+
 (* on well-formed input (every type has a table entry; interfaces of site-limited services belong to nodes)
    a rejection is the documented TopologyException, never another exception *)
 Theorem C10_rejection_is_topology_exception : forall sl, slice_wf pinned_tables sl = true ->
@@ -143,6 +164,11 @@ Proof. exact (allowed_full_hyps example_valid example_valid_allowed). Qed.
 
 Example C10_nonvacuous_wf : slice_wf pinned_tables example_valid = true.
 Proof. exact example_valid_wf. Qed.
+
+Example C10_nonvacuous_session :   (* valid L2STS; a node moves to a third site: rejected; moves back: accepted *)
+  map snd (session (ex_sts 2%N) [Validate; Mutate (fun _ => ex_sts 3%N); Validate; Mutate (fun _ => ex_sts 1%N); Validate])
+  = [Ok; Err ETopology; Ok].
+Proof. exact example_session. Qed.
 
 Example C10_nonvacuous_invalid :
   snd (validate_cur (mk_slice [] [mk_asvc "L2PTP" None []
